@@ -398,6 +398,7 @@ SUBCHECKS = {
 
 # --------------------------------------------------------------------------- known findings (narrow signatures)
 
+AREA_CLASSES = {"Protocluster", "SideloadedProtocluster", "CandidateCluster", "Region", "SubRegion", "SideloadedSubRegion"}
 AREA_SECTIONS = {"subregions", "protoclusters", "candidates", "regions"}
 NUMBER_KEYS = {"protocluster_number", "candidate_cluster_number", "subregion_number", "region_number", "protoclusters",
                "candidate_cluster_numbers", "subregion_numbers"}
@@ -423,6 +424,8 @@ def _numbering_failure(clause: str, detail: dict, kinds: list, any_key: bool = F
         return bool(area_kinds) and detail.get("section") in AREA_SECTIONS
     if clause in ("gb_fixed_point", "json_fixed_point", "results_fixed_point"):
         return "CDS" in kinds       # same features, emitted in another order
+    if any_key and _route_clause(clause, "secmet_features"):
+        return set(detail.get("classes_differing") or ["?"]) <= AREA_CLASSES
     return False
 
 
@@ -522,9 +525,10 @@ def sig_long_unbroken_value(sub, spec, clause, detail) -> bool:
     if clause == "gb_reload_total":
         # since the core's end is computed from len(core), a core that grew by a blank can run past the gene
         return (detail.get("exception") == "ValueError" and "get_sub_location_from_protein_coordinates" in
-                detail.get("where", "") and any(g.get("prepeptide") and g["prepeptide"].get("tail")
-                                                  and len(g["prepeptide"]["core"]) >= rec.LONG_VALUE
-                                                  for g in spec["genes"]))
+                detail.get("where", "") and any(
+                    g.get("prepeptide") and g["prepeptide"].get("tail") and max(
+                        len(g["prepeptide"]["core"]), len(g["prepeptide"].get("leader") or "")) >= rec.LONG_VALUE
+                    for g in spec["genes"]))
     if clause != "gb_features":
         return False
     spaced = set(detail.get("only_spaces_differ") or [])
@@ -541,18 +545,28 @@ def _only_strand_gained(before: str, after: str) -> bool:
     return before != after and before.replace(":None", ":1") == after
 
 
-def sig_candidate_strand_linear(sub, spec, clause, detail) -> bool:
-    """ linear record: create_candidate_clusters connects the members without a wrap point, from_biopython with one;
-        the two paths give the hull of members with mixed/missing strands a different strand (None vs +1).
-        Invisible in GenBank text, but the JSON location text changes """
-    if spec.get("circular") or clause.startswith("gb_"):
+def sig_candidate_wrap_point_linear(sub, spec, clause, detail) -> bool:
+    """ linear record: create_candidate_clusters connects the members without a wrap point, CandidateCluster.from_biopython
+        always passes the record length as one.  After a reload the candidate's core_location takes the short way
+        over the 'origin' of the linear record when the member cores are more than half a record apart, and the hull
+        of members with mixed/missing strands gets strand +1 instead of none (invisible in GenBank, not in JSON) """
+    if spec.get("circular") or len(spec.get("protoclusters") or []) < 1:
+        return False
+    if _route_clause(clause, "structure") and detail.get("section") in ("candidates", "regions"):
+        for item in detail["diff"]:
+            if not (isinstance(item["first"], str) and isinstance(item["second"], str)):
+                return False
+            wrapped = (item["at"].endswith("/core") and detail["section"] == "candidates"
+                       and item["first"].startswith("-{") and item["second"].startswith("join{")
+                       and item["second"].count(",") == 1 and ",0:" in item["second"])
+            if not (wrapped or (not clause.startswith("gb_") and _only_strand_gained(item["first"], item["second"]))):
+                return False
+        return True
+    if clause.startswith("gb_"):
         return False
     if _route_clause(clause, "features"):
         return (detail.get("type") in ("cand_cluster", "region") and detail.get("key") == "<location>"
                 and _only_strand_gained(*detail["values"]))
-    if _route_clause(clause, "structure") and detail.get("section") in ("candidates", "regions"):
-        return all(isinstance(item["first"], str) and isinstance(item["second"], str)
-                   and _only_strand_gained(item["first"], item["second"]) for item in detail["diff"])
     if _route_clause(clause, "secmet_features"):
         return set(detail.get("classes_differing")) <= {"CandidateCluster", "Region"} and all(
             _only_strand_gained(one[3], two[3]) and one[:3] == two[:3]
@@ -580,7 +594,7 @@ SIGNATURES = {
     "prepeptide_no_subclass": sig_prepeptide_no_subclass,
     "long_unbroken_value": sig_long_unbroken_value,
     "pfam_empty_go": sig_pfam_empty_go,
-    "candidate_strand_linear": sig_candidate_strand_linear,
+    "candidate_wrap_point_linear": sig_candidate_wrap_point_linear,
 }
 
 
